@@ -60,6 +60,12 @@ CHECKS["C12"] = dict(level="exploration", technique="TLA+ Project!EventNames / O
 CHECKS["C11"] = dict(level="exploration", technique="TLA+ Attrs!Expected / C11_Holds as oracle; TLC enumerates validator shapes, numeric literal classes and messages over character classes; real CLI in Zod mode; parsed schema chains trace-validated by TLC",
     text="476 validator shapes x applicable field type classes, 63 numeric bound pairs and every message over 17 character classes up to length 3 (5219; quick: length <=2 + 500 sampled) are generated in Zod mode; the method chain of each field schema is parsed (bounds as exact numbers under IEEE-double semantics, messages decoded from the JS literal) and TLC checks that the constraint calls are exactly the declared ones and that sibling fields carry none.",
     note="Known finding C11-email-url-shared-message. Zod's run-time behaviour is not executed (zod is not available offline); the chain is compared syntactically.", ref="6 (C11)")
+CHECKS["C01"] = dict(level="exploration", technique="strict TypeScript-subset parser as observation, TLA+ Names!IsIdentifierName / KeyWellFormed as judge (Trace_Names Syntax events) over TLC-enumerated adversarial names, keys, messages and type expressions generated by the real CLI",
+    text="Every file generated for adversarial projects (TLC-enumerated serde attribute lists and identifiers under all conventions, 399 event names, validator messages over 17 character classes, parameter identifiers under all 8 default conventions, type expressions at every site with mapping targets, JS reserved words in every name position, non-ASCII names, exotic Rust syntax; both modes) is parsed item by item; TLC requires no unparsable item, legal identifiers for all declared names and well-formed property keys.",
+    note="Validity is judged by the harness parser (tsc is not available offline): a construct the parser wrongly accepts weakens the check. Event names with characters Tauri forbids are outside the quantifier.", ref="6 (C01)")
+CHECKS["C15"] = dict(level="exploration", technique="Trace_Pipeline termination contract (RunEnd in {ok, err}) and isolation relation over runs of the real code on exotic-syntax sources, character-level fuzzed attribute payloads and a real-world corpus (in-process driver with panic capture)",
+    text="Runs of the real CLI on grammar-generated exotic items and fuzzed attribute payloads, and of the library entry point on every .rs file of the repository and of the vendored registry sources (quick: seeded 2500-file sample; thorough: all, with truncations and single-character mutations) are recorded as behaviours; Trace_Pipeline rejects any run that does not end in ok/err, and checks that adding unparsable files leaves the output of the other files identical.",
+    note="Totality over all Rust sources is a sampling claim; the specification contributes the termination and isolation contracts only.", ref="6 (C15)")
 NOT_YET = {}
 def main():
     props = [json.loads(l) for l in open(os.path.join(VERIF, "properties.jsonl"))]
